@@ -1086,7 +1086,7 @@ pub struct udp__AEADCipherCodec<const N: usize> {
     kind: CipherKind,
 }
 
-//@@ octo-squirrel/src/codec/shadowsocks/udp.rs:38-341  impl AEADCipherCodec {fn new,fn encode,fn new_encoder,fn decode,fn new_decoder}  sha=4e57777643e1db06
+//@@ octo-squirrel/src/codec/shadowsocks/udp.rs:38-347  impl AEADCipherCodec {fn new,fn encode,fn new_encoder,fn decode,fn decode_server_packet_aead_2022,fn decode_client_packet_aead_2022,fn new_decoder}  sha=c4e89f10bd893e30
 impl<const N: usize> udp__AEADCipherCodec<N> {
     fn new(kind: CipherKind) -> Self {
         Self { kind }
@@ -1130,21 +1130,166 @@ impl<const N: usize> udp__AEADCipherCodec<N> {
         }
     }
 
+    // for client mode
+    fn decode_server_packet_aead_2022(&self, context: &udp__Context<N>, src: &mut BytesMut) -> Result<udp__SessionPacket<N>, anyhow::Error> {
+        fn decrypt_message<'a, const N: usize>(
+            kind: CipherKind,
+            src: &'a mut BytesMut,
+            context: &udp__Context<'_, N>,
+        ) -> Result<(u64, u64, &'a [u8]), anyhow::Error> {
+            let tag_size = kind.tag_size();
+            match kind {
+                CipherKind::Aead2022Blake3Aes128Gcm | CipherKind::Aead2022Blake3Aes256Gcm => {
+                    let (session_id_packet_id, text) = src.split_at_mut(16);
+                    a22udp__aes_decrypt_in_place(kind, context.key, session_id_packet_id)?;
+                    let mut cursor = Cursor::new(session_id_packet_id);
+                    let server_session_id = cursor.get_u64();
+                    let packet_id = cursor.get_u64();
+                    let session_id_packet_id = cursor.into_inner();
+                    let nonce = &session_id_packet_id[4..16];
+                    let cipher = unsafe { udp__get_cipher(kind, context.key, server_session_id) };
+                    cipher.decrypt_in_place_detached(nonce, &[], text).map_err(|e| verif_err())?;
+                    let text = &text[..text.len() - tag_size];
+                    Ok((server_session_id, packet_id, text))
+                }
+                CipherKind::Aead2022Blake3ChaCha8Poly1305 | CipherKind::Aead2022Blake3ChaCha20Poly1305 => {
+                    let (nonce, text) = src.split_at_mut(a22udp__nonce_length(kind));
+                    let session_id = {
+                        let slice = &text[..8];
+                        let slice: &[u64] = verif_from_raw_parts(slice, 1);
+                        u64::from_be(slice[0])
+                    };
+                    let cipher = unsafe { udp__get_cipher(kind, context.key, session_id) };
+                    cipher.decrypt_in_place_detached(nonce, &[], text).map_err(|e| verif_err())?;
+                    let mut cursor = Cursor::new(text);
+                    let server_session_id = cursor.get_u64();
+                    let packet_id = cursor.get_u64();
+                    let text = cursor.into_inner();
+                    let text = &text[16..text.len() - tag_size];
+                    Ok((server_session_id, packet_id, text))
+                }
+                _ => return Err(verif_err()),
+            }
+        }
+
+        let nonce_length = a22udp__nonce_length(self.kind);
+        let tag_size = self.kind.tag_size();
+        let header_length = nonce_length + tag_size + 8 + 8 + 1 + 8 + 8 + 2;
+        if src.remaining() < header_length {
+            return Err(verif_err());
+        }
+        let (server_session_id, packet_id, text) = decrypt_message(self.kind, src, context)?;
+        let mut packet = BytesMut::with_capacity(text.len());
+        packet.extend_from_slice(text);
+        let stream_type = packet.get_u8();
+        let expect_stream_type = context.stream_type.expect_u8();
+        if stream_type != expect_stream_type {
+            return Err(verif_err());
+        }
+        a22__validate_timestamp(packet.get_u64()).map_err(verif_err_from)?;
+        let client_session_id = packet.get_u64();
+        let padding_length = packet.get_u16();
+        if packet.remaining() < padding_length as usize {
+            return Err(verif_err());
+        }
+        if padding_length > 0 {
+            packet.advance(padding_length as usize);
+        }
+        let session = udp__Session::new(client_session_id, server_session_id, packet_id, None);
+        let address = address__decode(&mut packet)?;
+        Ok((packet, address, session))
+    }
+
+    // for server mode
+    fn decode_client_packet_aead_2022(&self, context: &udp__Context<N>, src: &mut BytesMut) -> Result<udp__SessionPacket<N>, anyhow::Error> {
+        let nonce_length = a22udp__nonce_length(self.kind);
+        let tag_size = self.kind.tag_size();
+        let user_manager = context.user_manager.as_ref();
+        let require_eih = self.kind.support_eih() && user_manager.is_some_and(|u| u.user_count() > 0);
+        let eih_size = if require_eih { 16 } else { 0 };
+        let header_length = nonce_length + tag_size + 8 + 8 + eih_size + 1 + 8 + 2;
+        if src.remaining() < header_length {
+            return Err(verif_err());
+        }
+        let mut user = None;
+        let (session_id, packet_id, mut packet) = match self.kind {
+            CipherKind::Aead2022Blake3Aes128Gcm | CipherKind::Aead2022Blake3Aes256Gcm => {
+                let mut session_id_packet_id = src.split_to(16);
+                a22udp__aes_decrypt_in_place(self.kind, context.key, &mut session_id_packet_id)?;
+                let mut nonce: [u8; 12] = [0; 12];
+                nonce.copy_from_slice(&session_id_packet_id[4..16]);
+                let mut cursor = Cursor::new(session_id_packet_id);
+                let session_id = cursor.get_u64();
+                let packet_id = cursor.get_u64();
+                let session_id_packet_id = cursor.into_inner();
+                if require_eih {
+                    let mut eih = src.split_to(16);
+                    /*R2*/
+                    a22udp__aes_decrypt_in_place(self.kind, context.key, &mut eih)?;
+                    verif_xor_in_place(&mut eih,session_id_packet_id);
+                    if let Some(_user) = user_manager.unwrap().clone_user_by_hash(&eih) {
+                        /*R2*/
+                        user = Some(_user);
+                    } else {
+                        return Err(verif_err());
+                    }
+                }
+                let key = if let Some(ref user) = user { &user.key } else { context.key };
+                let cipher = unsafe { udp__get_cipher(self.kind, key, session_id) };
+                let mut packet = src.split_off(0);
+                cipher.decrypt_in_place(&nonce, &[], &mut packet).map_err(|e| verif_err())?;
+                (session_id, packet_id, packet)
+            }
+            CipherKind::Aead2022Blake3ChaCha8Poly1305 | CipherKind::Aead2022Blake3ChaCha20Poly1305 => {
+                let (nonce, text) = src.split_at_mut(nonce_length);
+                let session_id = {
+                    let slice = &text[..8];
+                    let slice: &[u64] = verif_from_raw_parts(slice, 1);
+                    u64::from_be(slice[0])
+                };
+                let cipher = unsafe { udp__get_cipher(self.kind, context.key, session_id) };
+                cipher.decrypt_in_place_detached(nonce, &[], text).map_err(|e| verif_err())?;
+                let mut cursor = Cursor::new(text);
+                let server_session_id = cursor.get_u64();
+                let packet_id = cursor.get_u64();
+                let text = cursor.into_inner();
+                let text = &text[16..text.len() - tag_size];
+                (server_session_id, packet_id, BytesMut::from(text))
+            }
+            _ => return Err(verif_err()),
+        };
+        let stream_type = packet.get_u8();
+        if stream_type != Mode::Client.to_u8() {
+            return Err(verif_err());
+        }
+        a22__validate_timestamp(packet.get_u64()).map_err(verif_err_from)?;
+        let padding_length = packet.get_u16();
+        if packet.remaining() < padding_length as usize {
+            return Err(verif_err());
+        }
+        if padding_length > 0 {
+            packet.advance(padding_length as usize);
+        }
+        let session = udp__Session::new(session_id, 0, packet_id, user);
+        let address = address__decode(&mut packet)?;
+        Ok((packet, address, session))
+    }
+
     fn new_decoder(&self, key: &[u8], salt: &BytesMut) -> anyhow::Result<ChunkDecoder> {
         ssaead__new_decoder(self.kind, key, salt).map_err(|e| verif_err())
     }
 }
 
-//@@ octo-squirrel/src/codec/shadowsocks/udp.rs:343-343  type SessionPacket  sha=2a9212c2fdd9b1f5
+//@@ octo-squirrel/src/codec/shadowsocks/udp.rs:349-349  type SessionPacket  sha=2a9212c2fdd9b1f5
 pub type udp__SessionPacket<const N: usize> = (BytesMut, Address, udp__Session<N>);
 
-//@@ octo-squirrel/src/codec/shadowsocks/udp.rs:345-348  struct SessionCodec  sha=3689553d9c2c80f8
+//@@ octo-squirrel/src/codec/shadowsocks/udp.rs:351-354  struct SessionCodec  sha=3689553d9c2c80f8
 pub struct udp__SessionCodec<'a, const N: usize> {
     context: udp__Context<'a, N>,
     cipher: udp__AEADCipherCodec<N>,
 }
 
-//@@ octo-squirrel/src/codec/shadowsocks/udp.rs:350-369  impl SessionCodec  sha=dfceca2ce4f76fd4
+//@@ octo-squirrel/src/codec/shadowsocks/udp.rs:356-375  impl SessionCodec  sha=dfceca2ce4f76fd4
 impl<'a, const N: usize> udp__SessionCodec<'a, N> {
     fn new(context: udp__Context<'a, N>, cipher: udp__AEADCipherCodec<N>) -> udp__SessionCodec<'a, N> {
         udp__SessionCodec { context, cipher }
@@ -1166,7 +1311,7 @@ impl<'a, const N: usize> udp__SessionCodec<'a, N> {
     }
 }
 
-//@@ octo-squirrel/src/codec/shadowsocks/udp.rs:371-377  struct Context  sha=1530ebc6b918883e
+//@@ octo-squirrel/src/codec/shadowsocks/udp.rs:377-383  struct Context  sha=1530ebc6b918883e
 pub struct udp__Context<'a, const N: usize> {
     stream_type: Mode,
     user_manager: Option<Arc<ServerUserManager<N>>>,
@@ -1174,7 +1319,7 @@ pub struct udp__Context<'a, const N: usize> {
     identity_keys: &'a [[u8; N]],
 }
 
-//@@ octo-squirrel/src/codec/shadowsocks/udp.rs:379-388  impl Context  sha=8c24f917f48b55c1
+//@@ octo-squirrel/src/codec/shadowsocks/udp.rs:385-394  impl Context  sha=8c24f917f48b55c1
 impl<const N: usize> udp__Context<'_, N> {
     fn new<'a>(
         stream_type: Mode,
@@ -1186,7 +1331,7 @@ impl<const N: usize> udp__Context<'_, N> {
     }
 }
 
-//@@ octo-squirrel/src/codec/shadowsocks/udp.rs:390-396  struct Session  sha=f14d3bc94bb4d5cf
+//@@ octo-squirrel/src/codec/shadowsocks/udp.rs:396-402  struct Session  sha=f14d3bc94bb4d5cf
 pub struct udp__Session<const N: usize> {
     pub client_session_id: u64,
     pub server_session_id: u64,
@@ -1194,7 +1339,7 @@ pub struct udp__Session<const N: usize> {
     pub user: Option<Arc<ServerUser<N>>>,
 }
 
-//@@ octo-squirrel/src/codec/shadowsocks/udp.rs:398-406  impl Session  sha=79c481f875a751f4
+//@@ octo-squirrel/src/codec/shadowsocks/udp.rs:404-412  impl Session  sha=79c481f875a751f4
 impl<const N: usize> udp__Session<N> {
     fn new(client_session_id: u64, server_session_id: u64, packet_id: u64, user: Option<Arc<ServerUser<N>>>) -> Self {
         Self { client_session_id, server_session_id, packet_id, user }
